@@ -100,7 +100,7 @@ class SideBand:
 
         rcsg.generate_command_stream = wrapped
         if hasattr(h2n, "generate_command_stream"):
-            pass
+            h2n.generate_command_stream = wrapped
         self.installed = True
 
 
